@@ -307,7 +307,7 @@ func (u *Url) IsIPv6() bool {
 
 // Clone returns a deep copy of the URL.
 func (u *Url) Clone() *Url {
-	return &Url{
+	c := &Url{
 		inputUrl:     u.inputUrl,
 		scheme:       u.scheme,
 		username:     u.username,
@@ -318,11 +318,14 @@ func (u *Url) Clone() *Url {
 		path:         u.path.clone(),
 		query:        cloneStringPointer(u.query),
 		fragment:     cloneStringPointer(u.fragment),
-		searchParams: u.SearchParams().Clone(),
 		parser:       u.parser,
 		isIPv4:       u.isIPv4,
 		isIPv6:       u.isIPv6,
 	}
+	if u.searchParams != nil {
+		c.searchParams = u.searchParams.Clone()
+	}
+	return c
 }
 
 func cloneStringPointer(s *string) *string {
